@@ -134,7 +134,7 @@ func TestC08(t *testing.T) {
 	const id = "C08"
 	checkWitnesses(t, id)
 	checkRegressions(t, id)
-	ev.Rule(id, "differential against the unrestricted run: run(S) must equal {d in run(no exclusion) : code(d) not matched by S under ALL>category>code} with a restated reference matcher. (a) exhaustive: every single token and every ordered pair of the 30-token alphabet {ALL, 5 categories, 16 codes, 8 junk tokens} on a fixed probe module producing all 16 codes, through the repository's own flag-value parser in-process; (b) rapid: random subsets in random case / spacing / empty items on rapid-generated programs; (c) the real binary with --config.exclude-checks and with GOGREEMENT_EXCLUDE_CHECKS on probe and generated programs. non-trivial = S changes the result and does not contain ALL, or S is junk-only on a non-empty baseline; distinct by (program hash, raw string)")
+	ev.Rule(id, "differential against the unrestricted run: run(S) must equal {d in run(no exclusion) : code(d) not matched by S under ALL>category>code} with a restated reference matcher. (a) exhaustive: every single token and every ordered pair of the 30-token alphabet {ALL, 5 categories, 16 codes, 8 junk tokens} on a fixed probe module producing all 16 codes and (singletons, pairs of codes / categories) on a second fixed module in which diagnostics of different codes are nested inside one expression, through the repository's own flag-value parser in-process; (b) rapid: random subsets in random case / spacing / empty items on rapid-generated programs; (c) the real binary with --config.exclude-checks and with GOGREEMENT_EXCLUDE_CHECKS on probe and generated programs. non-trivial = S changes the result and does not contain ALL, or S is junk-only on a non-empty baseline; distinct by (program hash, raw string)")
 	pkgs, src := probeSources()
 	base, why := c08RunInproc(pkgs, src, nil)
 	if why != "" {
@@ -184,6 +184,43 @@ func TestC08(t *testing.T) {
 		for _, b := range c08Tokens {
 			one(a + "," + b)
 			one(" " + strings.ToLower(a) + " , " + b + " ,")
+		}
+	}
+	// the same on the nested probe (codes nested inside one another): singletons of
+	// every token, pairs of the code and category tokens
+	npkgs, nsrc := nestedProbeSources()
+	nbase, why := c08RunInproc(npkgs, nsrc, nil)
+	if why != "" {
+		t.Fatalf("nested probe baseline: %s", why)
+	}
+	for _, want := range []string{"s1 TONL01", "s1 TONL02", "s2 TONL02", "s2 TONL03 (x2)", "s3 PKGO01", "s3 PKGO02", "s3 PKGO03 (x2)", "s4 IMM03", "s4 IMM04", "s5 IMM01", "s5 IMM02", "s5 CTOR01", "s6 CTOR01", "s6 CTOR02"} {
+		if !nbase[want] {
+			t.Fatalf("GENERATOR-BUG nested probe does not produce %q: %v", want, sortedSet(nbase))
+		}
+	}
+	oneNested := func(raw string) {
+		n++
+		if n%sn != si {
+			return
+		}
+		c := c08Case{Pkgs: npkgs, Sources: nsrc, Raw: raw, Via: "parser"}
+		ev.Eval(id)
+		if why := c08Check(c); why != "" {
+			violation(t, id, "c08", "exhaustive-nested", len(raw), c, "nested probe, exclude-checks=%q: %s", raw, why)
+		}
+		if exp := c08Expected(nbase, raw); len(exp) != len(nbase) && len(exp) > 0 {
+			ev.NonTrivial(id, ev.Hash("nested-probe", raw))
+		}
+	}
+	for _, a := range c08Tokens {
+		oneNested(a)
+		if refCategoryOf(a) == "" {
+			continue
+		}
+		for _, b := range c08Tokens {
+			if refCategoryOf(b) != "" {
+				oneNested(a + "," + b)
+			}
 		}
 	}
 	ev.Class(id, "exhaustive singletons+pairs done")
